@@ -902,8 +902,8 @@ class Interp:
             raise _Continue()
         elif isinstance(st, ast.Break):
             raise _Break()
-        elif isinstance(st, ast.Pass):
-            pass
+        elif isinstance(st, (ast.Pass, ast.Assert)):
+            pass            # an assertion does not build anything
         elif isinstance(st, ast.FunctionDef):
             a = st.args
             if a.kwarg or a.kwonlyargs or a.posonlyargs or st.decorator_list:
